@@ -23,7 +23,7 @@
 From Coq Require Import QArith Qcanon List String Bool.
 Import ListNotations.
 From S2 Require Import Base.Num Base.Arr Model.Expr Model.Struct Model.Rates Model.Solvers Spec.RatesSpec
-     Proofs.NumQc Proofs.BuildProofs Proofs.CopiesProofs Proofs.AggregateProofs Proofs.InvarianceProofs Proofs.Assembly Proofs.SameKeys Proofs.AgeAssembly Proofs.TimeShift Proofs.Scaling Proofs.AggregateRates Proofs.AggregateModel Proofs.AggregateTotals Proofs.AggregateAll Proofs.RatesBridge Proofs.AggregateFinal Proofs.AggregateTraj Proofs.AgeZero Proofs.AggregateClosed Proofs.FoiProofs Proofs.FoiAggregate Proofs.FoiBridge Proofs.FoiModel Model.Program Props.Examples.
+     Proofs.NumQc Proofs.BuildProofs Proofs.CopiesProofs Proofs.AggregateProofs Proofs.InvarianceProofs Proofs.Assembly Proofs.SameKeys Proofs.AgeAssembly Proofs.TimeShift Proofs.Scaling Proofs.AggregateRates Proofs.AggregateModel Proofs.AggregateTotals Proofs.AggregateAll Proofs.RatesBridge Proofs.AggregateFinal Proofs.AggregateTraj Proofs.AgeZero Proofs.AggregateClosed Proofs.FoiProofs Proofs.FoiAggregate Proofs.FoiBridge Proofs.FoiModel Proofs.AggregateInf Proofs.RunExt Model.Program Props.Examples.
 
 (* the copies of an unadjusted stratification carry the parent's weight, or the parent's weight
    divided by the number of strata for entry flows, destination-only stratified transitions
@@ -223,6 +223,33 @@ Proof.
 Qed.
 Print Assumptions C03_force_of_infection_aggregates.
 
+(* WHOLE MODELS, INFECTION FLOWS INCLUDED, at the level of the documented laws: every model the build API produces
+   (distinct compartments) whose rates, adjustments and mixing matrices do not read the state; every ordinary, partial
+   or age stratification that is not a strain stratification and carries no flow adjustments, no mixing matrix and no
+   infectiousness adjustments; every parameter set, time and state x' of the stratified model.  all_rate is the documented
+   law of each kind (C01): for infection flows weight x source x force of infection, the force of infection being C05's
+   definition at the mixing category of the source and the strain of the destination (mult_of; C05_multiplier identifies
+   it with what the runner computes).  Summed over the copies of a compartment, the net rates of the stratified model at
+   x' are the compartment's net rate in the unstratified model at the aggregated state.
+   partial: strain stratifications and stratifications that add a mixing matrix (the proportionate-mixing clause) are
+   not covered; the statement is about the laws, the identification of get_comp_rates with them being proved for the
+   models without infection flows (C03_comp_rates_aggregate) and per flow in C01 / C05 otherwise *)
+Theorem C03_all_flows_models_partial :
+  forall (O : NumOps) (T : NumTheory O) t0 t1 h comps inf ops (m : model) (s0 : strat) (m' : model),
+    build_ok t0 t1 h comps inf ops = Some m -> NoDup (m_comps m) ->
+    stratify_with m s0 = Ok m' ->
+    NoDup (s_strata (normalise_strat s0)) -> s_strata (normalise_strat s0) <> [] ->
+    is_strain (s_kind (normalise_strat s0)) = false -> s_fadj (normalise_strat s0) = [] ->
+    s_mix (normalise_strat s0) = None -> s_iadj (normalise_strat s0) = [] ->
+    (forall f, In f (m_flows m) -> all_flow f) ->
+    forallb state_free (mix_exprs m) = true ->
+    forall (p : env O) (t : F O) (x' : list (F O)), List.length x' = List.length (m_comps m') ->
+    forall c, In c (m_comps m) ->
+      fsum O (map (fun c' => net_rate O (all_rate O p t m' x') (m_flows m') c') (group (normalise_strat s0) c))
+      = net_rate O (all_rate O p t m (aggx O (normalise_strat s0) (m_comps m) x')) (m_flows m) c.
+Proof. intros O T. exact (all_flows_model_aggregates O T). Qed.
+Print Assumptions C03_all_flows_models_partial.
+
 (* non-vacuity: S, I, R with I split in two copies (positions 1 and 2), the second half as infectious in both layouts *)
 Example C03_foi_nonvacuous :
   let groups := [[0]; [1; 2]; [3]]%nat in
@@ -299,4 +326,32 @@ Proof.
   vm_compute. split; [reflexivity|]. split; [reflexivity|].
   split; [repeat constructor; cbn; intuition discriminate|].
   split; [eexists; reflexivity|]. eexists. split; [reflexivity|]. split; [reflexivity|]. split; [reflexivity|]. eexists; reflexivity.
+Qed.
+
+(* non-vacuity of C03_all_flows_models_partial: an SIR model with a frequency-dependent infection flow, recovery,
+   universal deaths and replacement births, first stratified by age with a mixing matrix (so that there are two mixing
+   categories), then by location without adjustments: the premises hold, and the infection flow's law is not zero *)
+Definition inf_ops : list Model.Program.op :=
+  [ OpPop [("S"%string, EConst 900); ("I"%string, EConst 100)];
+    OpFlow (FlowSpec KInfFreq "inf" (EParam "beta") "S" "I" [] [] None false);
+    OpFlow (FlowSpec KTrans "rec" (EConst (1#2)) "I" "R" [] [] None false);
+    OpUDeath "d" (EConst (1#64));
+    OpFlow (FlowSpec KRepl "b" (EConst 1) "" "S" [] [] None false);
+    OpStrat ex_age ].
+Definition all_flow_b (f : flow) : bool :=
+  (match f_kind f with KTrans | KDeath | KInfFreq | KInfDens => match f_src f with Some _ => true | None => false end | _ => true end)
+  && forallb state_free (flow_exprs f).
+Example C03_all_flows_nonvacuous :
+  match Model.Program.build_ok 0 2 (1#2) ["S"; "I"; "R"]%string ["I"]%string inf_ops with
+  | Some m0 => forallb all_flow_b (m_flows m0) = true /\ forallb state_free (mix_exprs m0) = true
+               /\ List.length (m_mixcats m0) = 2%nat /\ NoDup (m_comps m0)
+               /\ existsb (fun f => is_infection (f_kind f)) (m_flows m0) = true
+               /\ (exists m1, stratify_with m0 frac_strat = Ok m1 /\ List.length (m_comps m1) = 14%nat)
+               /\ Qeq_bool (this (all_rate QcOps ex_env (Q2Qc 0) m0 (map Q2Qc [400; 500; 60; 40; 7; 3]%Q) (nth 0 (m_flows m0) dflow_ex))) 0 = false
+  | None => False
+  end.
+Proof.
+  vm_compute. split; [reflexivity|]. split; [reflexivity|]. split; [reflexivity|].
+  split; [repeat constructor; cbn; intuition discriminate|].
+  split; [reflexivity|]. split; [eexists; split; reflexivity | reflexivity].
 Qed.
